@@ -2,10 +2,12 @@
   Props/C02All.lean — the module audited for C02: Props/C02.lean (record sections, circles, spinners, hold notes),
   Props/C02Slider.lean (path strings, slider lines, the [HitObjects] block), Props/C02Timing.lean (timing-point
   lines, redundancy suppression, the timing round trip in exact arithmetic), Props/C02Codec.lean (the model's IEEE
-  number codec satisfies the codec laws) and Props/C02File.lean (the parts composed: `roundtrip_rep_partial`, one
-  statement about one decode of `encode m` for maps satisfying `RepMap`). All in namespace `Rosu.C02`.
+  number codec satisfies the codec laws), Props/C02File.lean (the parts composed: `roundtrip_rep_partial`, one
+  statement about one decode of `encode m` for maps satisfying `RepMap`) and Props/C02Decoded.lean (record sections of
+  every decoded map). All in namespace `Rosu.C02`.
 -/
 import RosuModel.Props.C02Slider
 import RosuModel.Props.C02Timing
 import RosuModel.Props.C02Codec
 import RosuModel.Props.C02File
+import RosuModel.Props.C02Decoded
